@@ -55,4 +55,48 @@ theorem run_cl_within_gen (cfg : Cfg) (s : St) (segs : List Str) (hb : step cfg 
   · simp only [finishReq, hka2, if_true, takeBody, St.deliver, s1, St.emit]
     split <;> simp [pushEv]
 
+/-- a chunk within the limit (running total + size ≤ limit, equality included) that is completely buffered: its bytes are
+    handed over, and the machine is back at the next chunk-size line with the new running total -/
+theorem run_chunk_within_gen (cfg : Cfg) (s : St) (segs : List Str) (hb : step cfg s = none)
+    (total loc n : Nat) (rest : Str) (hp : s.phase = .chunkSize total)
+    (hloc : findCrlf (s.buf ++ segs.flatten) = some loc) (hshort : loc + 2 ≤ chunkLineMax)
+    (hsz : parseHexInt ((s.buf ++ segs.flatten).take loc) = some (n + 1)) (hfit : total + (n + 1) ≤ s.limit)
+    (hcr : (s.buf ++ segs.flatten).drop (loc + 2 + (n + 1)) = 13 :: 10 :: rest) :
+    ∃ s2, run cfg s segs = drain cfg s2 ∧ s2.phase = .chunkSize (total + (n + 1)) ∧ s2.idx = s.idx ∧
+      s2.limit = s.limit ∧ s2.buf = rest ∧
+      s2.out = pushEv s.out (.data (s.idx - 1) (((s.buf ++ segs.flatten).drop (loc + 2)).take (n + 1))) := by
+  have ho : s.phase ≠ .closed := by rw [hp]; simp
+  have h1 : ¬ loc + 2 > chunkLineMax := by omega
+  have h2 : ¬ total + (n + 1) > s.limit := by omega
+  generalize hB : s.buf ++ segs.flatten = B at *
+  have hs1 : step cfg { s with buf := B }
+      = some { s with buf := B.drop (loc + 2), phase := .chunkData (n + 1) (total + (n + 1)) } := by
+    simp [step, hp, stepChunkSize, hloc, h1, hsz, h2]
+  -- the chunk data is completely buffered
+  have hlenB : loc + 2 + (n + 1) + 2 ≤ B.length := by
+    have := congrArg List.length hcr
+    simp only [List.length_drop, List.length_cons] at this
+    omega
+  let s1 : St := { s with buf := B.drop (loc + 2), phase := .chunkData (n + 1) (total + (n + 1)) }
+  have hbuf1 : s1.buf = B.drop (loc + 2) := rfl
+  have hne : (B.drop (loc + 2)).isEmpty = false := by
+    cases hd : B.drop (loc + 2) with
+    | nil => have := congrArg List.length hd; simp only [List.length_drop, List.length_nil] at this; omega
+    | cons _ _ => rfl
+  have hs2 : step cfg s1 = some { (takeBody s1 (n + 1)) with phase := .chunkCrlf (total + (n + 1)) } := by
+    show stepChunkData s1 (n + 1) (total + (n + 1)) = _
+    simp [stepChunkData, hbuf1, hne]
+    omega
+  let s1' : St := { (takeBody s1 (n + 1)) with phase := .chunkCrlf (total + (n + 1)) }
+  have hbuf2 : s1'.buf = 13 :: 10 :: rest := by
+    show (B.drop (loc + 2)).drop (n + 1) = _
+    rw [List.drop_drop, ← hcr]
+  have hs3 : step cfg s1' = some { s1' with buf := rest, phase := .chunkSize (total + (n + 1)) } := by
+    show stepChunkCrlf s1' (total + (n + 1)) = _
+    unfold stepChunkCrlf
+    rw [hbuf2]
+    simp
+  refine ⟨{ s1' with buf := rest, phase := .chunkSize (total + (n + 1)) }, ?_, rfl, rfl, rfl, rfl, rfl⟩
+  rw [run_open_eq cfg s segs hb ho, hB, drain_of_some hs1, drain_of_some hs2, drain_of_some hs3]
+
 end TornadoModel.C04
